@@ -1002,7 +1002,14 @@ func (f *frame) sliceOp(ins *ssa.Slice) Val {
 		}
 		ref, ok := x.(Term)
 		if !ok {
-			f.bad("slicing an array that is not behind a plain reference")
+			// an array inside a struct (or another array): the slice is taken over a snapshot copy. Sound for
+			// code that only reads through the slice; writes through it would not reach the original.
+			u.note("slicing an array field takes a snapshot copy (reads only) in " + f.key)
+			av := u.load(f.cur, x)
+			r := u.alloc(f.cur, ins.X.Type())
+			hn, hs, _ := u.elemHeapName(at.Elem())
+			u.setHeap(f.cur, hn, hs, sto(u.heap(f.cur, hn, hs), r, av))
+			ref = r
 		}
 		u.oblige(f.key, "safe.bounds", "", f.curReach, and(le(zero, lo), le(lo, hi), le(hi, mx), le(mx, n)), f.pos(ins)+" slice bounds", "")
 		return u.define(f.key+"_"+ins.Name(), mkSlice(u, ref, lo, sub(hi, lo), sub(mx, lo), ins.Type()))
